@@ -15,7 +15,7 @@ Definition exp_a0 : list colarg :=
 Definition exp_a1 : list colarg :=
   [ABase [MS (unhex "61"%string)]; ABase [MZ DI 8]; ABase [MS (unhex "2e"%string)]; ANest [[MZ DI 12]; [MS (unhex "79"%string)]]].
 Definition exp_prog : list op :=
-  [OCatR; OSort 1; OSort 0; ODict; ORows; OSlice None None (-1); OMask [true; false; true];
+  [OCatR; OSort 1; OSort 0; ODict; ORows ItGen; OSlice None None (-1); OMask [true; false; true];
    OAdd (unhex "7a"%string) KList [ML DI [4; 8]; ML DF []]; OReplace 1 (ABase [MZ DI 0; MZ DI 4]); OReplace 1 (ABase [MZ DI 0]);
    OIndex (-1); OIndex 5; OTake [0; -2; 7]; OCatSelf; OPandas; OIter].
 
